@@ -10,6 +10,7 @@ import (
 	"regexp"
 	"strconv"
 	"strings"
+	"syscall"
 	"testing"
 )
 
@@ -154,6 +155,54 @@ func runKillSweep(t *testing.T, rc *RunCtx) {
 	}
 	rc.Stats.Seen("cases", desc)
 	rc.Sample = map[string]any{"layer": "real process kill", "workload_seed": workload, "kill_at_storage_point": killAt, "further_incarnations_killed": chain, "released_before_death": len(rel), "completed": done, "case": desc}
+	verifyAfterProcess(t, rc, pop, dir, rel, fmt.Sprintf("workload %d killed at storage point %d", workload, killAt))
+}
+
+// releasedConsistent checks what the child processes announced among themselves: no two slashable
+// attestations, no two different blocks for a slot (and, the announcements being in release order of
+// sequential workloads, proposal slots strictly increasing per key).
+func releasedConsistent(rc *RunCtx, rel []released, when string) bool {
+	for i, x := range rel {
+		for _, y := range rel[:i] {
+			if x.acct != y.acct || x.kind != y.kind {
+				continue
+			}
+			bad := ""
+			if x.kind == "prop" {
+				switch {
+				case x.a == y.a && x.rootHex != y.rootHex:
+					bad = "two different blocks for one slot"
+				case x.a == y.a:
+					bad = "the same slot signed twice"
+				case x.a < y.a:
+					bad = "a slot below one signed before"
+				}
+			} else {
+				switch {
+				case x.b == y.b && x.rootHex != y.rootHex:
+					bad = "two different attestations for one target"
+				case x.a < y.a && y.b < x.b:
+					bad = "an attestation surrounding an earlier one"
+				case y.a < x.a && x.b < y.b:
+					bad = "an attestation surrounded by an earlier one"
+				}
+			}
+			if bad != "" && x.rootHex != "-" && y.rootHex != "-" {
+				rc.Violate("C03", "conflicting-signatures-released-by-processes", fmt.Sprintf("%s: %s: %s %d/%d after %s %d/%d for account %d", when, bad, x.kind, x.a, x.b, y.kind, y.a, y.b, x.acct), 0)
+				return false
+			}
+		}
+	}
+	rc.Stats.Inc("released_lists_checked_pairwise", 1)
+	return true
+}
+
+// verifyAfterProcess opens the directory a child process left behind with a fresh real stack and requires that it
+// covers everything the child announced and refuses every conflicting duty.
+func verifyAfterProcess(t *testing.T, rc *RunCtx, pop *Population, dir string, rel []released, when string, beforeClose ...func()) {
+	if !releasedConsistent(rc, rel, when) {
+		return
+	}
 	s := NewSched(rc, SchedCfg{})
 	defer s.Close()
 	inst, err := NewInstance(s, "after-kill", InstCfg{Dir: dir, Pop: pop, Permissions: FullPermissions("client1")})
@@ -163,6 +212,11 @@ func runKillSweep(t *testing.T, rc *RunCtx) {
 		return
 	}
 	defer inst.Close()
+	defer func() {
+		for _, f := range beforeClose {
+			f()
+		}
+	}()
 	if inst.Rules.VerifStore().VerifSyncWrites() {
 		rc.Stats.Inc("stores_opened_with_sync_writes_option", 1)
 	} else {
@@ -173,7 +227,7 @@ func runKillSweep(t *testing.T, rc *RunCtx) {
 		rc.Violate("C03", "export-after-restart-failed", err.Error(), 0)
 		return
 	}
-	if !requireCovered(rc, pop, rel, ex, fmt.Sprintf("workload %d killed at storage point %d", workload, killAt)) {
+	if !requireCovered(rc, pop, rel, ex, when) {
 		return
 	}
 	// Conflicting duties are refused after the restart.
@@ -187,11 +241,114 @@ func runKillSweep(t *testing.T, rc *RunCtx) {
 			o = &Op{Kind: "att", Client: "client1", Entries: []Entry{AttEntry(r.acct, r.a, r.b, uniq)}}
 		}
 		if o.Exec(inst).OK(0) {
-			rc.Violate("C03", "conflicting-duty-signed-after-restart", fmt.Sprintf("%s conflicts with a signature released before the kill and was signed after the restart", o), 0)
+			rc.Violate("C03", "conflicting-duty-signed-after-restart", fmt.Sprintf("%s conflicts with a signature released before (%s) and was signed after the restart", o, when), 0)
 			return
 		}
 		rc.Stats.Inc("post_restart_conflict_probes", 1)
 	}
+}
+
+// --- layer 4: full disk ------------------------------------------------------------------------
+
+// runDiskFull is C03 layer 4: the child's store lives on a small tmpfs that a filler file has left a few pages
+// of; the workload runs into ENOSPC inside badger's own writes (real system calls, nothing stubbed).  Whatever
+// the child announced before, while and after the disk filled up must be covered by what a fresh stack finds
+// (after space has been made, or - drawn - on the still-full disk), and conflicting duties must be refused.
+// Needs the right to mount a tmpfs; where that is missing the layer counts itself as unavailable and checks nothing.
+func runDiskFull(t *testing.T, rc *RunCtx) {
+	InitBLS()
+	pop := StdPopulation(t)
+	ch := rc.Ch
+	mnt := NewRunDir(t)
+	sizeKB := []int{256, 512, 1024}[ch.Pick(3, 0)]
+	if err := syscall.Mount("tmpfs", mnt, "tmpfs", 0, fmt.Sprintf("size=%dk", sizeKB)); err != nil {
+		rc.Stats.Inc("diskfull_layer_unavailable_no_mount_right", 1)
+		rc.Logf("cannot mount a tmpfs (%v): layer skipped", err)
+		return
+	}
+	defer func() { _ = syscall.Unmount(mnt, syscall.MNT_DETACH) }()
+	dir := filepath.Join(mnt, "db")
+	if err := os.MkdirAll(dir, 0o700); err != nil {
+		t.Fatalf("mkdir: %v", err)
+	}
+	// tmpfs allocates whole pages: an empty store takes about five of them, every further page of the value
+	// log holds a few dozen records.
+	roomyFirst := ch.Pick(4, 0) != 3
+	freeKB := []int{0, 0, 4, 8}[ch.Pick(4, 0)]
+	if !roomyFirst {
+		freeKB = []int{16, 20, 24, 28}[ch.Pick(4, 0)]
+	}
+	var rel []released
+	workload := rc.Seed
+	if roomyFirst {
+		// A first incarnation with room builds some history.
+		out, code := runChildProc(t, dir, workload, 1+ch.Pick(6, 0), []string{"VERIF_CHILD_PRUNING=0"}, nil)
+		if code != 0 {
+			rc.Violate("HARNESS", "child-failed", truncate(out, 2000), 0)
+			return
+		}
+		rel, _ = parseReleased(out)
+	}
+	filler := filepath.Join(mnt, "filler")
+	var st syscall.Statfs_t
+	if err := syscall.Statfs(mnt, &st); err != nil {
+		t.Fatalf("statfs: %v", err)
+	}
+	fill := int64(st.Bavail)*int64(st.Bsize) - int64(freeKB)*1024
+	if fill > 0 {
+		if err := os.WriteFile(filler, make([]byte, fill), 0o600); err != nil {
+			t.Fatalf("filler: %v", err)
+		}
+	}
+	prior := filepath.Join(filepath.Dir(mnt), fmt.Sprintf("prior-df-%d.txt", rc.Seed))
+	var sb strings.Builder
+	for _, r := range rel {
+		fmt.Fprintf(&sb, "RELEASED %s %d %d %d -\n", r.kind, r.acct, r.a, r.b)
+	}
+	if err := os.WriteFile(prior, []byte(sb.String()), 0o600); err != nil {
+		t.Fatalf("prior: %v", err)
+	}
+	defer os.Remove(prior)
+	env := []string{"VERIF_CHILD_PRIOR=" + prior, "VERIF_CHILD_PRUNING=0"}
+	killAt := 0
+	if ch.Pick(4, 0) == 3 {
+		killAt = 1 + ch.Pick(60, 0)
+		env = append(env, "VERIF_HOOK_KILL_AT="+strconv.Itoa(killAt))
+	}
+	nOps := 120 + 120*ch.Pick(3, 0)
+	out, code := runChildProc(t, dir, workload*3+1, nOps, env, nil)
+	r2, done := parseReleased(out)
+	rel = append(rel, r2...)
+	_ = syscall.Statfs(mnt, &st)
+	full := st.Bavail == 0
+	rc.Logf("tmpfs %dk with %dk free, %d requests: exit %d, %d signatures released, completed=%v, disk full afterwards=%v", sizeKB, freeKB, nOps, code, len(r2), done, full)
+	switch {
+	case code == 4:
+		rc.Stats.Inc("diskfull_store_refused_to_open", 1)
+	case code != 0 && code != -1 && !strings.Contains(out, "START"):
+		rc.Violate("HARNESS", "child-failed", truncate(out, 2000), 0)
+		return
+	case code != 0 && code != -1:
+		// The process died of the condition itself (badger treats some write failures as fatal): as good as a kill.
+		rc.Stats.Inc("diskfull_process_died", 1)
+	}
+	if n := strings.Count(out, "IOFAIL"); n > 0 {
+		rc.Stats.Inc("fault_disk_full_requests_failed", int64(n))
+		rc.Stats.Inc("fault_disk_full_during_workload", 1)
+	} else {
+		rc.Stats.Inc("diskfull_workload_fitted", 1)
+	}
+	keepFull := ch.Pick(3, 0) == 2
+	if !keepFull {
+		_ = os.Remove(filler)
+	} else {
+		rc.Stats.Inc("diskfull_restart_on_still_full_disk", 1)
+	}
+	rc.Stats.Seen("cases", fmt.Sprintf("df/%d/%d/%v/%d/%d/%v/%d", sizeKB, freeKB, roomyFirst, killAt, nOps, keepFull, len(rel)))
+	rc.Sample = map[string]any{"layer": "full disk", "tmpfs_kb": sizeKB, "free_kb_at_start": freeKB, "history_before": roomyFirst, "kill_at_storage_point": killAt, "requests": nOps, "released": len(rel), "disk_full_afterwards": full, "restart_on_full_disk": keepFull}
+	// On a disk that is still full, closing the store never returns (badger retries the memory-table flush every
+	// second for ever); space is made before the instance is closed.
+	verifyAfterProcess(t, rc, pop, dir, rel, fmt.Sprintf("disk with %dk free filled up under workload %d", freeKB, workload), func() { _ = os.Remove(filler) })
 }
 
 // --- layer 3: power loss -----------------------------------------------------------------------
@@ -394,6 +551,7 @@ func runPowerLoss(t *testing.T, rc *RunCtx) {
 func init() {
 	noBubble["C03:kill"] = true
 	noBubble["C03:power"] = true
+	noBubble["C03:diskfull"] = true
 	base := propRunners["C03"]
 	propRunners["C03"] = func(t *testing.T, rc *RunCtx) {
 		switch rc.Param("mode", "") {
@@ -401,6 +559,8 @@ func init() {
 			runKillSweep(t, rc)
 		case "power":
 			runPowerLoss(t, rc)
+		case "diskfull":
+			runDiskFull(t, rc)
 		default:
 			base(t, rc)
 		}
